@@ -243,6 +243,10 @@ func (x *Exec) callByContract(st *State, fr *Frame, callee *ssa.Function, fc *Fu
 		if len(props) == 0 {
 			props = x.safetyProps()
 		}
+		// every call-site precondition is also checked by the run that verifies every function (C06)
+		if !contains(props, "C06") {
+			props = append(append([]string{}, props...), "C06")
+		}
 		x.oblige(st, "pre@"+short+fmt.Sprintf("#%d", ord), label, props, g, where, r.Src)
 	}
 	// call-site assertions of the caller's contract
@@ -256,6 +260,10 @@ func (x *Exec) callByContract(st *State, fr *Frame, callee *ssa.Function, fc *Fu
 				x.oblige(st, "assert@"+short+fmt.Sprintf("#%d", ord), a.Label, a.Props, x.evalBool(cenv, a.Expr), where, a.Src)
 			}
 		}
+	}
+	if fc.NoReturn {
+		st.dead = true
+		return
 	}
 	x.batch = 0
 	old := st.snapshot()
@@ -653,6 +661,18 @@ func (x *Exec) slotCall(st *State, fr *Frame, c *ssa.CallCommon, fnv *Value, arg
 		}
 	}
 	if slot == "" {
+		// the function value is the result of a call to a function whose contract names the slot of its result
+		if cl, ok := c.Value.(*ssa.Call); ok {
+			if sc := cl.Common().StaticCallee(); sc != nil {
+				if cfc, ok := x.C.Funcs[x.P.FuncName(sc)]; ok {
+					if s, ok := cfc.SlotOf["result"]; ok {
+						slot = s
+					}
+				}
+			}
+		}
+	}
+	if slot == "" {
 		// by named function type
 		if nt, ok := c.Value.Type().(*types.Named); ok {
 			slot = nt.Obj().Name()
@@ -719,6 +739,9 @@ func (x *Exec) callBySlot(st *State, fr *Frame, sc *FuncContract, slot string, s
 		props := r.Props
 		if len(props) == 0 {
 			props = x.safetyProps()
+		}
+		if !contains(props, "C06") {
+			props = append(append([]string{}, props...), "C06")
 		}
 		x.oblige(st, tag, label, props, x.evalBool(env, r.Expr), where, r.Src)
 	}
@@ -866,6 +889,11 @@ func (x *Exec) builtin(st *State, b *ssa.Builtin, c *ssa.CallCommon, args []*Val
 			// the number of entries is not tracked: an arbitrary non-negative int
 			n := x.fresh("maplen", rt)
 			st.assume(and(app("<=", "0", n.T), app("<=", n.T, "9223372036854775807")))
+			// an empty map has no keys
+			dn, _, ds, _ := x.mapHeapNames(u)
+			ks := x.Sorts.SortOf(u.Key())
+			dom := app("select", x.heap(st, dn, ds), x.term(a))
+			st.assume(fmt.Sprintf("(=> (= %s 0) (forall ((k %s)) (! (not (select %s k)) :pattern ((select %s k)))))", n.T, ks, dom, dom))
 			return n
 		case *types.Pointer:
 			if at, ok := u.Elem().Underlying().(*types.Array); ok {
